@@ -3,6 +3,7 @@ C14 - cancellation is prompt and final; queries never hang or leak goroutines (p
 per component, all schedules; wall-clock time is represented by "no stuck state").
 -/
 import PromqlVerif.LTS.ConcurrentThms
+import PromqlVerif.LTS.WorkerThms
 namespace PromqlVerif.C14
 open PromqlVerif LTS.Concurrent
 
@@ -33,5 +34,18 @@ theorem skeleton_as_modelled :
 context error out of the buffer, and the consumer then sees a clean end of stream -/
 theorem end_of_stream_after_cancel_possible : (explored feat).any (fun s => !errorNotSwallowed s) = true :=
   swallow_after_cancel_possible
+
+/-- the worker group of the hash aggregation (one `Send` and one `GetOutput` per worker and batch,
+`input`/`output` with the regenerated capacities): for every schedule and every moment of
+cancellation, a state without successor has the consumer returned and every worker exited -/
+theorem worker_group_no_deadlock_no_leak :
+    ∀ s, LTS.Reach (LTS.Worker.sys LTS.Worker.feat) s → LTS.Worker.noDeadlock LTS.Worker.feat s = true :=
+  LTS.Worker.no_deadlock
+
+/-- the buffer of `Worker.input` is what makes this true -/
+theorem worker_input_buffer_is_needed :
+    (LTS.Worker.explored { LTS.Worker.feat with capIn := 0 }).all
+      (LTS.Worker.noDeadlock { LTS.Worker.feat with capIn := 0 }) = false :=
+  LTS.Worker.deadlock_with_unbuffered_input
 
 end PromqlVerif.C14
